@@ -435,6 +435,11 @@ func TestBig(t *testing.T) {
 // switches between 16-bit and 32-bit wire ids.
 func genBoundary(t *rapid.T) Case {
 	n := rapid.IntRange(2030, 2050).Draw(t, "n")
+	if rapid.IntRange(0, 2).Draw(t, "straddle") == 0 {
+		// The garbler's 65504 bits end just below 2^16: a 64-bit
+		// evaluator argument straddles wire id 65536.
+		n = 2047
+	}
 	arrT := mpcl.Array(n, mpcl.Uint(32))
 	o := mpcl.Opts{NumParams: 2, MaxStmts: 6, MaxDepth: 2, Arrays: false, Loops: true,
 		ScalarParams: true, MaxWidth: 64, NoDiv: true, Param0: &arrT,
